@@ -216,7 +216,7 @@ def run_unit(unit, tier):
                         "props": f["safety_props"], "fn": f["id"], "line": ln,
                         "text": "[%s of trait contract, for %s] %s" % (tag, f["id"], _clause_text(gl, ln).replace("// @tobl " + tag, "").strip())}
     res.trusted = scan_trusted(gen)
-    rl = 10 if tier == "quick" else 50
+    rl = 60 if tier == "quick" else 300
     me = 4 if tier == "quick" else 12
     with cf.ThreadPoolExecutor(1 + len(cans)) as ex:
         fa = ex.submit(run_verus, gen, rl, me)
